@@ -602,3 +602,66 @@ def _exits_when_used_up(f, body, bid, r):
         return False
     exit_edge = b.succs[0] if used_up_true else b.succs[1]
     return exit_edge is not None and exit_edge not in body
+
+
+def invariant_nonneg_at(P, f, node, form, summaries=None):
+    """Is the linear form (over variable names) >= 0 whenever the element containing `node` is reached, by induction
+    over the innermost loop around it: the form is not negative on every way into the loop, stays so round every path
+    of the body when assumed at the head, and under that assumption holds where the node stands."""
+    loc = None
+    for b in f.blocks.values():
+        for i, e in enumerate(b.elems):
+            if any(y.get("n") == node.get("n") for y in ir.walk(e)):
+                loc = (b.id, i)
+                break
+        if loc:
+            break
+    if loc is None:
+        return False
+    loops = fieldinv._loops(f)
+    cands = [(len(body), h, body) for h, body in loops.items() if loc[0] in body]
+    if not cands:
+        return False
+    _, head, body = min(cands)
+    mod = sorted(cursorw._modified(f, body))
+    st0 = sym.State()
+    for v in mod:
+        st0.env[v] = ({v + "@h": 1}, 0)
+    r0 = cursorw._ev(form, st0)
+    if r0 is None:
+        return False
+    at_site = []
+    target = f.blocks[loc[0]].elems[loc[1]]
+
+    class W(TW):
+        def on_elem(self2, b, e, st):
+            if e is target:
+                rr = cursorw._ev(form, st)
+                at_site.append(rr is not None and self2.implied(st, rr))
+            TW.on_elem(self2, b, e, st)
+    w = W(P, f, summaries if summaries is not None else {})
+    st1 = st0.copy()
+    st1.cons.append(sym._norm(r0))
+    try:
+        backs = w.body_walk(head, st1, record=False)
+    except AnalysisBroken:
+        return False
+    if not at_site or not all(at_site):
+        return False
+    for s1 in backs:
+        r1 = cursorw._ev(form, s1)
+        if r1 is None or not w.implied(s1, r1):
+            return False
+    w3 = TW(P, f, summaries if summaries is not None else {})
+    ins = []
+    try:
+        w3._walk(f.entry, sym.State(), frozenset(), ins, None, stop_at=head)
+    except AnalysisBroken:
+        return False
+    if not ins:
+        return False
+    for s_in in ins:
+        rr = cursorw._ev(form, s_in)
+        if rr is None or not w3.implied(s_in, rr):
+            return False
+    return True
